@@ -99,8 +99,8 @@ CONFIG["C04"] = dict(
 )
 CONFIG["C12"] = dict(
     modules=["CanVerif.Props.C12", "CanVerif.Props.C12Term"],
-    level_text="Kernel-checked Lean theorems about the executable parser model (a transcription of text/scanner and pkg/dbc). Termination (Props/C12Term.lean): every loop of the model carries a bound and reaching it is an outcome of its own (outOfFuel; scanner loops report it through ScanErr.fuel), never a silent stop; C12_terminates proves for every byte sequence that no bound is reached (measure: unread characters + pending look-ahead character + pending look-ahead token never increases, every token other than EOF and every character read decreases it, every continuing loop iteration and every definition consumes input; straight-line code by the Std.Do verification-condition generator from the primitives' specifications, loops by induction), so the result is what the unbounded Go loops compute and they terminate; the decoder's bound likewise (C12_decoder_bound). No panic: C12_no_panic proves the model's run-time panic site (tok.txt[0], guarded by the identifier test) unreachable for every byte sequence, from the invariant that scanner offsets stay inside the source and identifier tokens are never empty (kept by every scanner and parser operation; the panic site is specified with precondition False); hence C12_success_or_positioned_error: every byte sequence ends in success or a positioned error. Props/C12.lean: the outcome is a function of the bytes, classified ok/positioned error/panic; accepted definitions are only ever appended (prefix stability, errors report exactly the definitions accepted so far). The model is compared with the real parser on fixed edge inputs, mutated generated files (byte flips, NUL, invalid UTF-8, truncation, token splices, huge numbers, repetition), random bytes, and the locality clause on every generated file x definition index x corruption operator (each input parsed twice under recover).",
-    level_note="Partial: that the error position is not before the corrupted definition is decided per run. The model has one partial Go operation (proved unreachable); Go runtime panics in code the model renders as total (slice growth, stdlib internals) are covered by correspondence only.",
+    level_text="Kernel-checked Lean theorems about the executable parser model (a transcription of text/scanner and pkg/dbc). Termination (Props/C12Term.lean): every loop of the model carries a bound and reaching it is an outcome of its own (outOfFuel; scanner loops report it through ScanErr.fuel), never a silent stop; C12_terminates proves for every byte sequence that no bound is reached (measure: unread characters + pending look-ahead character + pending look-ahead token never increases, every token other than EOF and every character read decreases it, every continuing loop iteration and every definition consumes input; straight-line code by the Std.Do verification-condition generator from the primitives' specifications, loops by induction), so the result is what the unbounded Go loops compute and they terminate; the decoder's bound likewise (C12_decoder_bound). No panic: C12_no_panic proves the model's run-time panic site (tok.txt[0], guarded by the identifier test) unreachable for every byte sequence, from the invariant that scanner offsets stay inside the source and identifier tokens are never empty (kept by every scanner and parser operation; the panic site is specified with precondition False); hence C12_success_or_positioned_error: every byte sequence ends in success or a positioned error. Locality: C12_error_position_local proves that a failing parse fails in one iteration of the definition loop after the iterations that accepted exactly the reported definitions, and that the error position is at or after the start of the first token of the definition being parsed (the look-ahead start offset never decreases; tokens and scanner errors are positioned at or after it). Props/C12.lean: the outcome is a function of the bytes, classified ok/positioned error/panic; accepted definitions are only ever appended (prefix stability, errors report exactly the definitions accepted so far). The model is compared with the real parser on fixed edge inputs, mutated generated files (byte flips, NUL, invalid UTF-8, truncation, token splices, huge numbers, repetition), random bytes, and the locality clause on every generated file x definition index x corruption operator (each input parsed twice under recover).",
+    level_note="The model has one partial Go operation (proved unreachable); Go runtime panics in code the model renders as total (slice growth, stdlib internals) are covered by correspondence only.",
     level="proof",
     trivial=r"^(ok 0 ;; -|local no-error)$",
     rule="inputs: fixed edge list + mutations of grammar-derived files + random bytes + locality corruptions; non-trivial = not the empty parse and not a vacuous locality case",
